@@ -354,3 +354,30 @@ _add("C19",
 _add("C19",
      text="Also decided: the number lexer keeps only finite values (a non-finite number in a record's context is written as null and makes the log unreadable; found and repaired).",
      technique="finiteness test between parse::<f64>() and the token")
+
+
+# ---- wave 6 (seed round 8, 2026-09-27 late)
+_add("C01",
+     text="Also decided: a cursor that only grows inside a loop and indexes a slice there is tested in that loop (no test at all, or only a closure answering get(i).is_some_and(..) whose false edge leads to the index, is refuted).",
+     technique="per-loop census of monotone cursors under a bounds check, comparison census, closure shape")
+_add("C03",
+     text="Also decided (shared with C02/C04): the per-line comment parsers and Mask::parse re-base inner tokens by the start of the cut and advance a line offset by the full length of every line - lint spans are token spans.",
+     technique="rule instances of R-C02-rebase")
+_add("C04",
+     text="Also decided: comment-leader stripping removes none of the delimiters ({ } @) by which the later JSDoc/Javadoc stage recognises tags.",
+     technique="evaluation of the stripping predicates over their MIR on the delimiter characters; stage census per parser")
+_add("C06",
+     text="Also decided: the report direction of the accept condition - every path of SpellCheck::lint that reaches the lint has asked contains_exact_word about the word as written and about its whole lower-cased form (or left through the dialect test / missing metadata).",
+     technique="must-pass-through over the call blocks of the tests towards the lint push")
+_add("C07",
+     text="Also decided (shared with C06/C15): membership in the merged dictionary folds over all parts, so a spelling held by the user's part is found when an earlier part knows the letters in another capitalisation.",
+     technique="rule instances of R-C15-merged")
+_add("C10",
+     text="Also decided: each settings key that spells a Config field feeds that field and no other (found and repaired statsPath stored in file_dict_path); every store into the server's shared Config is the Ok payload of Config::from_lsp_config with no fallback source.",
+     technique="key-to-field table agreement by provenance through get(key); exclusive source rule on stores through the Config write guard")
+_add("C14",
+     text="Also decided: the serde graph of Lint (it travels through the code action as JSON before HarperIgnoreLint hashes it) is symmetric; a from/into = String pair on a field-less enum is evaluated per variant, to_string through the Display impl.",
+     technique="serde audit of a second root; decision-table evaluation of both conversions with a checked model of write!(f, \"{}\", s)")
+_add("C18",
+     text="Also decided (shared with C06): dictionary entries are filed under the lower-cased, apostrophe-normalised spelling and nothing coarser, the premise under which the canonical spelling copied over a proper noun has the word's own letters.",
+     technique="rule instances of R-C06-id")
